@@ -369,6 +369,41 @@ def rule_infresolve(ctx) -> RuleResult:
                                f"a group whose true extreme is {want} merged with an absent block yields the stand-in")
         if not found:
             raise AnalysisError(f"{fn}: floating-dtype branch not found (anchor)")
+    # complex arm: the sentinel is a constant expression; fold it with Python's complex arithmetic.  `np.inf + 1j * np.inf` is nan+infj (the
+    # product 1j * inf has a NaN real part), and a fill with a NaN part poisons every max / min it meets; the parts must be +-inf.
+    def fold(e):
+        if isinstance(e, ast.Constant) and isinstance(e.value, (int, float, complex)):
+            return complex(e.value)
+        if norm(e) in ("np.inf", "numpy.inf", "math.inf", "float('inf')"):
+            return complex(float("inf"), 0.0)
+        if isinstance(e, ast.UnaryOp) and isinstance(e.op, (ast.USub, ast.UAdd)):
+            v = fold(e.operand)
+            return None if v is None else (-v if isinstance(e.op, ast.USub) else v)
+        if isinstance(e, ast.BinOp) and isinstance(e.op, (ast.Add, ast.Sub, ast.Mult)):
+            l, r = fold(e.left), fold(e.right)
+            if l is None or r is None:
+                return None
+            return l + r if isinstance(e.op, ast.Add) else l - r if isinstance(e.op, ast.Sub) else l * r
+        if isinstance(e, ast.Call) and norm(e.func) == "complex" and len(e.args) == 2:
+            a, b = fold(e.args[0]), fold(e.args[1])
+            return None if a is None or b is None else complex(a.real, b.real)
+        return None
+
+    for fn, sign in (("xrdtypes.get_pos_infinity", 1.0), ("xrdtypes.get_neg_infinity", -1.0)):
+        f = u.func(fn)
+        for n in walk_own(f.node):
+            if isinstance(n, ast.If) and "complexfloating" in norm(n.test):
+                for r in [x for x in ast.walk(ast.Module(body=n.body, type_ignores=[])) if isinstance(x, ast.Return) and x.value is not None]:
+                    v = fold(r.value)
+                    want = sign * float("inf")
+                    ok = v is not None and v.real == want and v.imag == want
+                    res.inst(f"{fn}: complex branch returns '{norm(r.value)}' = {v}: both parts {want}: {ok}", f"{fn}|complex")
+                    if v is None:
+                        res.notes.append(f"UNDECIDED: {fn}: complex sentinel '{norm(r.value)}' is not a foldable constant expression")
+                    elif not ok:
+                        res.report(f"{fn}|complex-identity", f.where(r), fn,
+                                   f"for complex dtypes the sentinel '{norm(r.value)}' evaluates to {v}: a part that is NaN (1j * inf has a NaN real part) makes every "
+                                   "max / min with the fill NaN, so complex min / max of a chunked array are NaN wherever a group is absent from a block")
     g = u.func("xrdtypes._get_fill_value")
     t = norm(g.node)
     ok = "fill_value == INF" in t and "get_pos_infinity(dtype" in t and "fill_value == NINF" in t and "get_neg_infinity(dtype" in t
